@@ -35,6 +35,15 @@ theorem pget_recvPing_isSome {nbrs : List (Nat × Nbr)} {w face : Nat} {active :
     · simp only [pget_pset]; by_cases e : h = w <;> simp [e, hs]
   · simp only [pget_pset]; by_cases e : h = w <;> simp [e, hs]
 
+theorem deadOne_eq (t : Tables) (w : Nat) : t.deadOne w = t.stepDirty (.dead w) := rfl
+
+theorem sweep_fold_fst (ws : List Nat) : ∀ (t : Tables) (d : Bool),
+    (ws.foldl (fun acc w => ((Tables.deadOne acc.1 w).1, acc.2 || (Tables.deadOne acc.1 w).2)) (t, d)).1 =
+      ws.foldl (fun t w => t.step (.dead w)) t := by
+  induction ws with
+  | nil => intro t d; rfl
+  | cons w r ih => intro t d; simp only [List.foldl_cons]; rw [ih]; rfl
+
 theorem nbrInv_step {t : Tables} (inv : NbrInv t) (ev : RouterEvent) : NbrInv (t.step ev) := by
   cases ev with
   | ping w face active =>
@@ -73,6 +82,31 @@ theorem nbrInv_step {t : Tables} (inv : NbrInv t) (ev : RouterEvent) : NbrInv (t
         · exact Or.inl (by simp only [pget_perase, hh, if_false]; exact h1)
         · exact Or.inr h1
   | papply x reset adds rems => exact ⟨inv.wf, inv.loc⟩
+  | sweep ws =>
+    have hd : ∀ (t : Tables) (w : Nat), NbrInv t → NbrInv (t.step (.dead w)) := by
+      intro t w inv
+      simp only [Tables.step, Tables.stepDirty]
+      cases hw : pget t.nbrs w with
+      | none => exact inv
+      | some nb =>
+        simp only
+        obtain ⟨wf', hc⟩ := C18.ribDead_wf_cst inv.wf w
+        refine ⟨wf', ?_⟩
+        intro d h hlt
+        rw [hc] at hlt
+        by_cases hh : h = w
+        · simp [hh] at hlt
+        · simp only [hh, if_false] at hlt
+          rcases inv.loc d h hlt with h1 | h1
+          · exact Or.inl (by simp only [pget_perase, hh, if_false]; exact h1)
+          · exact Or.inr h1
+    simp only [Tables.step, Tables.stepDirty, sweep_fold_fst]
+    have : ∀ (ws : List Nat) (t : Tables), NbrInv t → NbrInv (ws.foldl (fun t w => t.step (.dead w)) t) := by
+      intro ws
+      induction ws with
+      | nil => intro t h; exact h
+      | cons w r ih => intro t h; exact ih _ (hd t w h)
+    exact this ws t inv
 
 /-- the invariant gives what the installer needs -/
 theorem nbrOk_of_inv {t : Tables} (inv : NbrInv t) : NbrOk t := by
